@@ -490,9 +490,15 @@ class SSHConfig:
             except KeyError:
                 pass
             else:
+                # Values inherited from the config this one is based on
+                # have already been expanded there
+                inherited = self._last_options.get(option)
+
                 if isinstance(value, list):
-                    value = [self._expand_val(item) for item in value]
-                elif isinstance(value, str):
+                    done = len(inherited) if isinstance(inherited, list) else 0
+                    value = value[:done] + [self._expand_val(item)
+                                            for item in value[done:]]
+                elif isinstance(value, str) and option not in self._last_options:
                     value = self._expand_val(value)
 
                 self._options[option] = value
